@@ -216,7 +216,10 @@ def chain_case(rng, d):
     pad = 'x' * rng.randint(0, 45) + ' ' * rng.randint(0, 3) + 'y' * rng.randint(0, 12)
     lib = '<html>\n<div metal:define-macro="m">\n  <b class="%s">${boom(\'%s\')}</b>  <i>tail of the line</i>\n</div>\n</html>' % (pad, exc)
     mid = '<x>\n<y tal:define="lib load: lib.pt" metal:use-macro="lib.macros[\'m\']"/>\n</x>'
-    main = '<main>\n\n<z tal:define="mid load: mid.pt" metal:use-macro="mid"/></main>'
+    # the call site in main.pt: a plain name, or an expression with separately compiled inner parts (string interpolation inside
+    # load:, a later pipe alternative) - the record names the whole use-macro expression either way
+    use = rng.choice(['mid', 'mid', 'load: ${name}.pt', 'nothere | python: mid', 'load: mid.pt', 'nothere.x | nothere | mid'])
+    main = '<main>\n\n<z tal:define="mid load: mid.pt" metal:use-macro="%s"/></main>' % use
     for name, body in (('lib.pt', lib), ('mid.pt', mid), ('main.pt', main)):
         with open(os.path.join(d, name), 'w') as f:
             f.write(body)
@@ -224,9 +227,9 @@ def chain_case(rng, d):
     def rec(src, text):
         off = src.index(text)
         return [text, 1 + src[:off].count('\n'), off - (src[:off].rfind('\n') + 1)]
-    off = main.index('use-macro="mid"') + len('use-macro="')
+    off = main.index('use-macro="') + len('use-macro="')
     expected = [rec(lib, "boom('%s')" % exc), rec(mid, "lib.macros['m']"),
-                ['mid', 1 + main[:off].count('\n'), off - (main[:off].rfind('\n') + 1)]]
+                [use, 1 + main[:off].count('\n'), off - (main[:off].rfind('\n') + 1)]]
     return exc, expected
 
 
@@ -237,7 +240,7 @@ def run_chain(d, exc):
     def boom(name):
         raise EXC[name](name)
     try:
-        PageTemplateFile(os.path.join(d, 'main.pt'))(boom=boom)
+        PageTemplateFile(os.path.join(d, 'main.pt'))(boom=boom, name='mid')
     except Exception as e:
         return {'raised': type(e).__name__, 'is_render_error': isinstance(e, RenderError), 'records': pipeline.parse_errors(str(e)),
                 'markers': marker_texts(str(e))}
